@@ -146,7 +146,16 @@ pub fn render<Vtx: Clone, Var: Lerp + Vary, Uni: Copy, Shd>(
             // of the original view-space depth. The interpolated reciprocal
             // is used in fragment processing for depth testing (larger values
             // are closer) and for perspective correction of the varyings.
-            let pos = vec3(x, y, 1.0).z_div(w);
+            let pos: crate::math::Vec3<Ndc> = vec3(x, y, 1.0).z_div(w);
+            // The clipper interpolates intersection vertices with an absolute
+            // rounding error of a few ulps of the edge's largest coordinate.
+            // Next to a vertex with a much smaller w that can put x/w or y/w
+            // a pixel or more outside the viewport: keep them inside
+            let pos = vec3(
+                pos.x().clamp(-1.0, 1.0),
+                pos.y().clamp(-1.0, 1.0),
+                pos.z(),
+            );
             Vertex {
                 // Viewport transform
                 pos: to_screen.apply(&pos).to_pt(),
